@@ -74,6 +74,15 @@ var kindTable = []kindInfo{
 	{"ERC20_LOCK", 0x94, []string{"Locker"}},
 	{"ERC20_REDEEM", 0x95, []string{"Owner"}},
 	{"OLVM", 0x101, []string{"from"}},
+	// bid application (external_apps/bid): the party the message names; BID_EXPIRE is the block hook's own
+	// transaction, routed from outside as well: like the public governance kinds it names one address
+	// (validatorAddress) whose signature its Validate requires
+	{"BID_CREATE", 0x901, []string{"bidder"}},
+	{"BID_CONTER_OFFER", 0x902, []string{"assetOwner"}},
+	{"BID_CANCEL", 0x903, []string{"bidder"}},
+	{"BID_BIDDER_DECISION", 0x904, []string{"bidder"}},
+	{"BID_EXPIRE", 0x905, []string{"validatorAddress"}},
+	{"BID_OWNER_DECISION", 0x906, []string{"owner"}},
 }
 
 const olvmCode = 0x101
